@@ -9,7 +9,7 @@ META = dict(
                'declared operation algebra.',
     level_note='Trusted: translator, shims, CBMC; interface contracts of the model virtuals (any value may be returned); polygon test and depth '
                'surfaces are stubs here (C04/C07/C11). Velocity is specified to restart from zero in every covering feature, as the code does.',
-    scope='ContinentalPlate/OceanicPlate/MantleLayer/Plume::properties; World::properties feature loop (shared with C01); apply_operation; uniform composition of all six feature families',
+    scope='ContinentalPlate/OceanicPlate/MantleLayer/Plume::properties; World::properties feature loop (shared with C01); apply_operation; uniform composition of all six feature families; FeatureUtilities::add_vector_unique (tag numbering)',
     not_covered=['SubductingPlate and Fault properties() (DFCC does not finish on them, DESIGN 15)', 'random models'],
     enforced_elsewhere={'grains_ctor': 'C02/grains_ctor', 'grains_unroll_into': 'C02/grains_unroll'},
 )
@@ -103,6 +103,18 @@ _pl['defines_thorough'] = dict(DEFT, WB_CAP_vec_Point2=3)
 _pl['loops'] = {(_pfn, k): dict((kk, vv.replace('Features_ContinentalPlate_properties', _pfn)) for kk, vv in lc.items()) for (f_, k), lc in _pl['loops'].items()}
 _pl.pop('canaries', None)
 UNITS.append(_pl)
+
+# tag numbering: FeatureUtilities::add_vector_unique
+_tfn = 'Features_FeatureUtilities_add_vector_unique'
+UNITS.append(dict(
+    name='tag_index', enforce=_tfn, contracts='c02_tag_index.c', harness='h_tag_index',
+    targets=[dict(tu='source/world_builder/features/feature_utilities.cc', qual='WorldBuilder::Features::FeatureUtilities::add_vector_unique')],
+    defines={'MAXP': 4, 'WB_VEC_CAP': 2, 'WB_CAP_vec_wb_string': 5}, defines_thorough={'MAXP': 16, 'WB_CAP_vec_wb_string': 17}, expect_fail=['REACHABILITY-GUARD'],
+    canaries=[(r'return i;', 'return i + 1;', 'index of the entry after the match'),
+              (r'return \(\(\*vector\)\.n - \(\(unsigned long\)1\)\);', 'return ((*vector).n);', 'index one past the appended entry')],
+    loops={(_tfn, 1): dict(contract='__CPROVER_assigns(i)\n'
+                                    '__CPROVER_loop_invariant(i <= vector->n && (g_present ==> i <= g_first))\n'
+                                    '__CPROVER_decreases(vector->n - i)')}))
 
 GR = 'source/world_builder/grains.cc'
 GDEF = {'WB_VEC_CAP': 2, 'WB_CAP_vec_double': 24, 'WB_CAP_vec_arr_arr_double_3_3': 2}
